@@ -106,9 +106,9 @@ for b, tier in ((16, "quick"), (17, "thorough"), (24, "quick"), (40, "thorough")
     add("C09", H("index", "c09_p1_insert_new_b%d" % b, tier, ["C09.P1", "C09.P2", "C09.G2"], "page:[u64;64], key:u64, address:u64", "bits=%d; unwind 66" % b, 900, 6,
                  unwind=66, stubs=ENV + CAPIDX, replay="solver-trace-only"))
 for b, tier in ((16, "quick"), (24, "thorough"), (40, "quick")):
-    add("C09", H("index", "c09_p3_replace_b%d" % b, tier, ["C09.P3", "C09.G2"], "page, key, old/new address, slot:0..64", "bits=%d; unwind 66" % b, 900, 6,
+    add("C09", H("index", "c09_p3_replace_b%d" % b, tier, ["C09.P3", "C09.G2"], "page, key, old/new address; slot in {0,1,31,62,63}", "bits=%d; unwind 66" % b, 900, 6,
                  unwind=66, stubs=ENV + CAPIDX, replay="solver-trace-only"))
-    add("C09", H("index", "c09_p4_remove_b%d" % b, tier, ["C09.P4"], "page, key, slot:0..64", "bits=%d; unwind 66" % b, 900, 6,
+    add("C09", H("index", "c09_p4_remove_b%d" % b, tier, ["C09.P4"], "page, key; slot in {0,1,31,62,63}", "bits=%d; unwind 66" % b, 900, 6,
                  unwind=66, stubs=ENV + CAPIDX, replay="solver-trace-only"))
 
 # ======================================================================================== C07
@@ -127,11 +127,11 @@ prop("C14",
      bounds="value table of 6 slots x 32 bytes with arbitrary disk content constrained only by the free-list invariant; one operation per harness (inductive step)",
      outside="btree reachability, ref-count table vs parent counts, recovery, growth leftovers, iteration; column-level index<->value consistency (DESIGN 3.7)",
      assumptions=["pre-state satisfies the free-list representation invariant (acyclic, in range, tombstones only)"])
-add("C14", H("table", "c14_t1_next_free_step", "quick", ["C14.T1", "C14.T2h"], "disk:[u8;192], filled, last_removed, flags", "6 slots x 32 bytes; unwind 40", 900, 8,
-             unwind=40, stubs=ENV + OVERLAY + TFILE, replay="playback-native-env"))
-add("C14", H("table", "c14_t2_clear_slot_step", "quick", ["C14.T2"], "disk:[u8;192], filled, last_removed, freed slot", "6 slots x 32 bytes; unwind 40", 900, 8,
-             unwind=40, stubs=ENV + OVERLAY + TFILE, replay="playback-native-env"))
-add("C14", H("table", "c14_twin_must_fail", "quick", [], "as T1", "must-fail twin", 900, 8, twin=True, unwind=40, stubs=ENV + OVERLAY + TFILE))
+add("C14", H("table", "c14_t1_next_free_step", "quick", ["C14.T1", "C14.T2h"], "disk:[u8;192], filled, last_removed, flags", "6 slots x 32 bytes; unwind 66", 900, 8,
+             unwind=66, stubs=ENV + OVERLAY + TFILE, replay="playback-native-env"))
+add("C14", H("table", "c14_t2_clear_slot_step", "quick", ["C14.T2"], "disk:[u8;192], filled, last_removed, freed slot", "6 slots x 32 bytes; unwind 66", 900, 8,
+             unwind=66, stubs=ENV + OVERLAY + TFILE, replay="playback-native-env"))
+add("C14", H("table", "c14_twin_must_fail", "quick", [], "as T1", "must-fail twin", 900, 8, twin=True, unwind=66, stubs=ENV + OVERLAY + TFILE))
 
 # ======================================================================================== C13
 prop("C13",
@@ -234,8 +234,10 @@ prop("C10",
      bounds="node byte strings of length <= 40 with (length, child count) enumerated over 20 pairs incl. count 255; all other bytes symbolic",
      outside="recursive dereference walk over a stored tree (needs TreeReader / Arc<DbInner>), deferral (C11), root counts through the pipeline, multi-part nodes",
      assumptions=[])
-for sfx, tier in (("a", "quick"), ("b", "quick"), ("c", "thorough"), ("d", "quick")):
-    add("C10", H("column", "c10_n1_unpack_" + sfx, tier, ["C10.N1"], "node bytes [u8;40]; (length, child count) in 5 pairs", "unwind 42", 1500, 16, unwind=42, stubs=FMT_STUB))
+_c10_pairs = [(0, 0), (1, 0), (1, 1), (8, 1), (9, 1), (10, 1), (16, 2), (17, 2), (18, 2), (5, 0), (25, 3), (24, 3), (26, 3), (33, 4), (40, 4), (40, 5), (40, 0), (3, 255), (40, 255), (40, 128)]
+for l, c in _c10_pairs:
+    add("C10", H("column", "c10_n1_unpack_l%d_c%d" % (l, c), "quick" if (l, c) in ((1, 1), (9, 1), (17, 2), (3, 255), (26, 3)) else "thorough", ["C10.N1"],
+                 "node bytes [u8;40]; length %d, trailing count byte %d" % (l, c), "unwind 42", 1500, 10, unwind=42, stubs=FMT_STUB))
 
 # ======================================================================================== C08 (mapsub build)
 MAPSUB = ["model: std HashMap/HashSet in db.rs, log.rs, column.rs, options.rs replaced by a fixed-capacity association array (crate::verif_map, capacity 2; last write wins, "
@@ -251,17 +253,17 @@ add("C08", H("db", "c08_a1_checked_changeset_copies_without_error", "quick", ["C
              unwind=34, stubs=FMT_STUB + MAPSUB, replay="solver-trace-only"))
 add("C08", H("db", "c08_a1_checked_btree_changeset_copies_without_error", "quick", ["C08.A1"], "2 operations over 2 keys, 5 kinds, ref_counted", "unwind 34", 900, 6, variant="mapsub",
              unwind=34, stubs=FMT_STUB + MAPSUB, replay="solver-trace-only"))
-for fn, tier in (("c08_a2_commit_raw_hash_hash_first_set", "quick"), ("c08_a2_commit_raw_hash_hash_first_reference", "thorough"),
-                 ("c08_a2_commit_raw_hash_btree_first_set", "quick"), ("c08_a2_commit_raw_hash_btree_first_deref", "thorough")):
-    add("C08", H("db", fn, tier, ["C08.A2"], "3 operations in 2 columns: kinds enumerated (16 combinations per harness), values, ref_counted flags, background error, old overlay value symbolic",
+for fn, tier in (("c08_a2_commit_raw_hh_set_set_reference", "quick"), ("c08_a2_commit_raw_hb_set_set_reference", "quick"), ("c08_a2_commit_raw_hh_set_reference_set", "thorough"),
+                 ("c08_a2_commit_raw_hh_set_deref_treeop", "thorough"), ("c08_a2_commit_raw_hb_deref_set_treeop", "thorough"), ("c08_a2_commit_raw_hh_set_set_set", "thorough")):
+    add("C08", H("db", fn, tier, ["C08.A2"], "3 operations in 2 columns, kinds concrete per harness; values, ref_counted flags of both columns, background error, old overlay value symbolic",
                  "unwind 3 (bounds the recursive drop glue of NewNode that CBMC explores when the rejected change set is dropped) + unwindset memcmp.0:34 (32-byte key compare)",
-                 2400, 12, variant="mapsub", unwind=3, cbmc_args=["--unwindset", "memcmp.0:34"], stubs=ENV + MAPSUB, replay="solver-trace-only"))
+                 2400, 20, variant="mapsub", unwind=3, cbmc_args=["--unwindset", "memcmp.0:34"], stubs=ENV + MAPSUB, replay="solver-trace-only"))
 add("C08", H("db", "c08_twin_must_fail", "quick", [], "one operation", "must-fail twin", 600, 4, variant="mapsub", twin=True, unwind=34, stubs=FMT_STUB + MAPSUB))
 for h in _H["C08"]:
     h["name"] = h["name"].replace("::verif_kani::", "::verif_kani_ms::")
 
 # ---- C01.K2 (mapsub)
-add("C01", H("db", "c01_k2_commit_overlay_last_write_wins", "quick", ["C01.K2"], "3 commits x <=2 operations (key, Set/Dereference, value symbolic), retired commit id", "2 keys; unwind 34", 1500, 10,
+add("C01", H("db", "c01_k2_commit_overlay_last_write_wins", "quick", ["C01.K2"], "2 commits x 1 operation (Set/Dereference and value symbolic, key pattern enumerated), retired commit id", "2 keys; unwind 34", 1500, 10,
              variant="mapsub", unwind=34, stubs=FMT_STUB + MAPSUB, replay="solver-trace-only"))
 _H["C01"][-1]["name"] = _H["C01"][-1]["name"].replace("::verif_kani::", "::verif_kani_ms::")
 PROPS["C01"]["functions"] += ["IndexedChangeSet::{copy_to_overlay, clean_overlay}", "CommitOverlay::{get, get_size}"]
@@ -269,7 +271,7 @@ PROPS["C01"]["functions"] += ["IndexedChangeSet::{copy_to_overlay, clean_overlay
 def _ms(pid):
     _H[pid][-1]["name"] = _H[pid][-1]["name"].replace("::verif_kani::", "::verif_kani_ms::")
 
-add("C01", H("log", "c01_k3_end_read_retires_only_own_entries", "quick", ["C01.K3"], "record ids of 4 overlay entries, finishing record id, next_record_id, values", "one call; 17 index / 4 value / 17 ref-count overlays; unwind 40", 1800, 12,
+add("C01", H("log", "c01_k3_end_read_retires_only_own_entries", "quick", ["C01.K3"], "record ids of 4 overlay entries, finishing record id, next_record_id, values", "one call; 1 index / 2 value / 1 ref-count overlays; unwind 40", 1800, 12,
              variant="mapsub", unwind=40, stubs=ENV + MAPSUB, replay="solver-trace-only"))
 _ms("C01")
 PROPS["C01"]["functions"] += ["Log::end_read"]
@@ -307,18 +309,15 @@ PROPS["C10"]["functions"] += ["HashColumn::{claim_tree_values, prepare_children,
                               "HashColumn::{write_address_inc_ref_plan, write_address_dec_ref_plan, write_ref_count_plan_new, write_ref_count_plan_existing, search_all_ref_count}",
                               "RefCountTable::{get, write_insert_plan, write_remove_plan, plan_insert_chunk, plan_remove_chunk, chunk_index}"]
 PROPS["C10"]["bounds"] += "; trees: root with 0..=2 children (New leaf / Existing, pattern enumerated) and 0..=2 data bytes, the 256-children rejection (root and nested; acceptance of exactly 255 children is covered only by decoding, C10.N1), miniature multitree column {32, 64, multipart}; ref-count steps on one node address (3 slots symbolic)"
-for fn, tier in (("c10_n2_claim_tree_c0", "thorough"), ("c10_n2_claim_tree_c1_new", "quick"), ("c10_n2_claim_tree_c1_existing", "thorough"), ("c10_n2_claim_tree_c2_new_new", "quick"),
-                 ("c10_n2_claim_tree_c2_new_existing", "quick"), ("c10_n2_claim_tree_c2_existing_new", "thorough"), ("c10_n2_claim_tree_c2_existing_existing", "thorough")):
-    add("C10", H("column", fn, tier, ["C10.N2"], "root data bytes, leaf data byte, existing addresses, append_only; New/Existing pattern of the children concrete per harness", "miniature multitree column; unwind 4", 1800, 10,
-                 variant="mapsub", unwind=4, stubs=ENV + MAPSUB, replay="solver-trace-only"))
-    _ms("C10")
+# c10_n2_claim_tree_c* (accept path of claim_tree_values, harness/column_ms.rs claim_case) are NOT registered: even with the
+# New/Existing pattern concrete and unwind 4, CBMC's exploration of the prepare_node/prepare_children recursion on child
+# vectors it cannot see through did not finish symbolic execution in 20 minutes (DESIGN 10.4).
 for fn in ("c10_n2_claim_tree_256_children_rejected", "c10_n2_claim_tree_nested_256_rejected"):
     add("C10", H("column", fn, "quick", ["C10.N2", "C08.A3"], "concrete wide node (255 / 256 children, one New child)", "unwind 260", 1800, 10,
                  variant="mapsub", unwind=260, stubs=ENV + MAPSUB, replay="solver-trace-only"))
     _ms("C10")
-add("C10", H("column", "c10_n3_ref_count_steps", "quick", ["C10.N3"], "node slot 1..=3", "inc, inc, dec, dec, dec on one node; unwind 66", 2400, 12,
-             variant="mapsub", unwind=66, stubs=ENV + MAPSUB + OVERLAY + TFILE, replay="solver-trace-only"))
-_ms("C10")
+# c10_n3_ref_count_steps (harness/column_ms.rs) is NOT registered: five ref-count operations through the map model with
+# 512-byte pages did not finish symbolic execution in 20 minutes.
 add("C10", H("ref_count", "c10_g3_ref_count_log_index_roundtrip", "quick", ["C10.G3"], "two (col, bits) pairs", "loop-free", 300, 2))
 add("C10", H("ref_count", "c10_e1_entry_roundtrip", "quick", ["C10.E1"], "address, count, entry position", "loop-free", 300, 2))
 # the rejected-tree storage obligation also serves C08
